@@ -7,10 +7,11 @@ Open Scope Z_scope.
 Open Scope string_scope.
 
 (** * restricted integers *)
-Lemma de_nt_valid rmax max v n :
-  de_nt "try_from:u16" rmax max v = Some n -> (n <= max)%N.
+Lemma de_nt_valid shape rmax max v n :
+  String.eqb shape "derive" = false ->
+  de_nt shape rmax max v = Some n -> (n <= max)%N.
 Proof.
-  unfold de_nt. cbn [String.eqb Ascii.eqb Bool.eqb]. unfold de_u16, de_int.
+  intros Hd. unfold de_nt. rewrite Hd. unfold de_u16, de_int.
   destruct v; try discriminate.
   destruct (Z.leb 0 z && Z.leb z 65535) eqn:E; [|discriminate].
   destruct (Z.leb_spec z (Z.of_N max)) as [Hle|Hgt]; [|discriminate].
@@ -18,10 +19,11 @@ Proof.
   intros Hx; inversion Hx. lia.
 Qed.
 
-Lemma de_nt_roundtrip rmax max n :
-  (n <= max)%N -> (max <= 65535)%N -> de_nt "try_from:u16" rmax max (JInt (Z.of_N n)) = Some n.
+Lemma de_nt_roundtrip shape rmax max n :
+  String.eqb shape "derive" = false ->
+  (n <= max)%N -> (max <= 65535)%N -> de_nt shape rmax max (JInt (Z.of_N n)) = Some n.
 Proof.
-  intros H1 H2. unfold de_nt. cbn [String.eqb Ascii.eqb Bool.eqb]. unfold de_u16, de_int.
+  intros Hd H1 H2. unfold de_nt. rewrite Hd. unfold de_u16, de_int.
   destruct (Z.leb_spec 0 (Z.of_N n)); [|lia]. destruct (Z.leb_spec (Z.of_N n) 65535); [|lia].
   cbn [andb]. destruct (Z.leb_spec (Z.of_N n) (Z.of_N max)); [|lia]. rewrite N2Z.id. reflexivity.
 Qed.
@@ -36,15 +38,15 @@ Section Composite.
   Hypothesis cn_ok : forall v n, de_cn v = Some n -> (n < 128)%N.
 
   (** ** RawShortMessage with the checked TryFrom: status byte >= 0x80 *)
-  Lemma de_raw_valid v b :
-    de_raw de_u7 "try_from:(u8,U7,U7)" v = Some b -> valid3 b = true.
+  Lemma de_raw_valid shape v b :
+    String.eqb shape "derive" = false ->
+    de_raw de_u7 shape v = Some b -> valid3 b = true.
   Proof.
-    unfold de_raw. destruct v as [| | | |l|]; try discriminate.
+    intros Hd. unfold de_raw. rewrite Hd. destruct v as [| | | |l|]; try discriminate.
     destruct l as [|s [|a [|c [|? ?]]]]; try discriminate.
     destruct (de_u8 s) as [s'|] eqn:Es; [|discriminate].
     destruct (de_u7 a) as [a'|] eqn:Ea; [|discriminate].
     destruct (de_u7 c) as [c'|] eqn:Ec; [|discriminate].
-    cbn [String.eqb Ascii.eqb Bool.eqb].
     destruct (extract_type (Z.to_N s')) as [t|] eqn:Et; [|discriminate].
     intros Hinv; inversion Hinv; subst b. clear Hinv.
     unfold de_u8, de_int in Es. destruct s as [| |z| | |]; try discriminate.
@@ -61,16 +63,16 @@ Section Composite.
 
   (** ** ControlChange14BitMessage with a validating try_from: MSB controller number 0-31 *)
   Lemma de_cc14_valid shape v m :
-    prefix "try_from:" shape = true -> String.eqb shape "derive" = false ->
+    String.eqb shape "derive" = false ->
     de_cc14 de_u14 de_channel de_cn shape v = Some m ->
     (cc_channel m < 16 /\ cc_msb_cn m < 32 /\ cc_value m < 16384)%N.
   Proof.
-    intros Hp Hd. unfold de_cc14.
+    intros Hd. unfold de_cc14.
     destruct (struct_fields _ v) as [[|c [|n [|x [|? ?]]]]|]; try discriminate.
     destruct (de_channel c) as [c'|] eqn:E1; [|discriminate].
     destruct (de_cn n) as [n'|] eqn:E2; [|discriminate].
     destruct (de_u14 x) as [x'|] eqn:E3; [|discriminate].
-    rewrite Hd, Hp. unfold cc14_new, corresponding_lsb.
+    rewrite Hd. unfold cc14_new, corresponding_lsb.
     destruct (N.leb_spec 32 n') as [Hge|Hlt]; [discriminate|].
     intros Hinv; inversion Hinv; subst m. cbn.
     pose proof (channel_ok _ _ E1). pose proof (u14_ok _ _ E3). auto.
@@ -79,10 +81,10 @@ Section Composite.
   (** ** ParameterNumberMessage with a validating try_from: resolution, value and data type
       are consistent *)
   Lemma de_pn_valid shape v m :
-    prefix "try_from:" shape = true -> String.eqb shape "derive" = false ->
+    String.eqb shape "derive" = false ->
     de_pn de_u14 de_channel shape v = Some m -> pnmsg_wf m = true.
   Proof.
-    intros Hp Hd. unfold de_pn.
+    intros Hd. unfold de_pn.
     destruct (struct_fields _ v) as [[|c [|n [|x [|r [|w [|d [|? ?]]]]]]]|]; try discriminate.
     destruct (de_channel c) as [c'|] eqn:E1; [|discriminate].
     destruct (de_u14 n) as [n'|] eqn:E2; [|discriminate].
@@ -90,7 +92,7 @@ Section Composite.
     destruct (de_bool r) as [r'|]; [|discriminate].
     destruct (de_bool w) as [w'|]; [|discriminate].
     destruct (de_datatype d) as [d'|]; [|discriminate].
-    rewrite Hd, Hp.
+    rewrite Hd.
     destruct (pn_consistent (mkPN c' n' x' r' w' d')) eqn:Ec; [|discriminate].
     intros Hinv; inversion Hinv; subst m. unfold pnmsg_wf, pn_consistent in *. cbn in *.
     pose proof (channel_ok _ _ E1) as H1. pose proof (u14_ok _ _ E2) as H2.
